@@ -351,7 +351,7 @@ Lemma take_line_spec s : forall acc ln r fnd, take_line s acc = (ln, r, fnd) ->
   (fnd = true /\ exists l, ln = rev acc ++ l /\ s = l ++ [10%N] ++ r /\ ~ In 10%N l) \/
   (fnd = false /\ exists l, ln = rev acc ++ l /\ s = l /\ r = [] /\ ~ In 10%N l).
 Proof.
-  induction s as [|c t IH]; intros acc ln r fnd H; cbn in H.
+  induction s as [|c t IH]; intros acc ln r fnd H; cbn in H; rewrite <- ?rev_alt in H.
   - injection H as <- <- <-. right. split; auto. exists []. rewrite app_nil_r. auto.
   - destruct (c =? 10)%N eqn:E.
     + injection H as <- <- <-. apply N.eqb_eq in E. subst c. left. split; auto. exists []. rewrite app_nil_r. auto.
